@@ -75,6 +75,8 @@ def san_signature(err):
             kind = "asan:" + (m2.group(1).decode() if m2 else "bad-free")
         if m.group(1) == b"SEGV":
             kind = "asan:SEGV"
+        # frames of THIS report only (earlier recoverable reports may precede it)
+        err = err[m.start():]
     else:
         for m in re.finditer(rb"([^\n/]*\.[chyl]):\d+:\d+: runtime error: ([^\n]*)", err):
             if any(f == m.group(1) and pat in m.group(2) for f, pat in BENIGN_UB):
@@ -267,6 +269,15 @@ class Shard:
         return self
 
 
+def san_excerpt(err, n=2500):
+    """the part of stderr that matters: from the first sanitizer/probe report on"""
+    if not err:
+        return ""
+    pos = [p for p in (err.find(b"VERIF-INVARIANT"), err.find(b"ERROR: AddressSanitizer"), err.find(b"runtime error:")) if p >= 0]
+    i = max(0, min(pos) - 120) if pos else max(0, len(err) - n)
+    return err[i:i + n].decode("latin-1")
+
+
 def res_replay(r, expected=None, note=None):
     """replay record for a process result"""
     d = dict(argv=[a if isinstance(a, str) else a.decode("latin-1") for a in r.argv],
@@ -274,7 +285,7 @@ def res_replay(r, expected=None, note=None):
              env={k: v for k, v in (r.env or {}).items()},
              rc=r.rc, sig=r.sig,
              stdout=r.out[:4000].decode("latin-1"),
-             stderr=r.err[-3000:].decode("latin-1"))
+             stderr=san_excerpt(r.err))
     if expected is not None:
         d["expected"] = expected
     if note:
